@@ -14,7 +14,9 @@ META = dict(
     evaluations_counter="cases",
     min={"elements_judged": 1_000_000, "idempotence_elements": 100_000, "calls:quantize_activation": 20,
          "calls:SymmetricQuantizer.apply": 20},
-    anchors=["tensor/qactivation.py:quantize_activation", "tensor/quantizers/symmetric.py:SymmetricQuantizer.forward"],
+    anchors=["tensor/qactivation.py:quantize_activation",
+             "tensor/quantizers/symmetric.py:SymmetricQuantizer.forward",
+             "tensor/qbytes.py:QBytesDequantizer.forward"],
     rule="case = (dtype, qtype, entry point, axis, scale recipe, shape/layout) over the complete finite "
          "float16/bfloat16 value space, boundary-directed float32 points (every grid point, every rounding mid-point "
          "+-{0,1,2,8} ulp, end points, beyond range, subnormals) and random float32 bit patterns; non-trivial when the "
